@@ -1,5 +1,5 @@
 use crate::{
-  byte_code::{ByteCodeEncoder, EncodedChunk, SymbolicByteCode},
+  byte_code::{ByteCodeEncoder, EncodedChunk, Label, SymbolicByteCode},
   cache::CacheIdEmitter,
   chunk_builder::ChunkBuilder,
   source::VmFileId,
@@ -326,17 +326,68 @@ fn label_count(instructions: &[SymbolicByteCode]) -> usize {
 }
 
 fn apply_stack_effects(fun_builder: &mut FunBuilder, instructions: &mut [SymbolicByteCode]) {
-  let mut slots: i32 = 1;
+  // slot 0 holds the callee / receiver, parameters are pushed by the caller
+  let arity = fun_builder.parameter_count() as i32;
 
-  for instruction in instructions {
-    if let SymbolicByteCode::PushHandler((_, label)) = instruction {
-      // TODO handle to many slots
-      *instruction = SymbolicByteCode::PushHandler((slots as u16, *label))
+  // where does each label live
+  let mut label_index: Vec<Option<usize>> = vec![];
+  for (index, instruction) in instructions.iter().enumerate() {
+    if let SymbolicByteCode::Label(label) = instruction {
+      let id = label.val() as usize;
+      if label_index.len() <= id {
+        label_index.resize(id + 1, None);
+      }
+      label_index[id] = Some(index);
     }
+  }
+  let target = |label: &Label| label_index.get(label.val() as usize).copied().flatten();
 
-    slots += instruction.stack_effect();
-    debug_assert!(slots >= 0);
+  // walk the control flow graph tracking the depth before each instruction
+  let mut depths: Vec<Option<i32>> = vec![None; instructions.len()];
+  let mut work: Vec<(usize, i32)> = vec![(0, 1)];
+
+  while let Some((index, slots)) = work.pop() {
+    if index >= instructions.len() || depths[index].is_some() {
+      continue;
+    }
+    depths[index] = Some(slots);
     fun_builder.update_max_slots(slots);
+
+    let next = index + 1;
+    match instructions[index] {
+      SymbolicByteCode::Jump(label) | SymbolicByteCode::Loop(label) => {
+        if let Some(to) = target(&label) {
+          work.push((to, slots));
+        }
+      },
+      SymbolicByteCode::JumpIfFalse(label) | SymbolicByteCode::CheckHandler(label) => {
+        if let Some(to) = target(&label) {
+          work.push((to, slots - 1));
+        }
+        work.push((next, slots - 1));
+      },
+      SymbolicByteCode::And(label) | SymbolicByteCode::Or(label) => {
+        if let Some(to) = target(&label) {
+          work.push((to, slots));
+        }
+        work.push((next, slots - 1));
+      },
+      SymbolicByteCode::PushHandler((_, label)) => {
+        // TODO handle to many slots
+        instructions[index] = SymbolicByteCode::PushHandler(((slots + arity) as u16, label));
+        if let Some(to) = target(&label) {
+          work.push((to, slots));
+        }
+        work.push((next, slots));
+      },
+      SymbolicByteCode::Return | SymbolicByteCode::Raise | SymbolicByteCode::ContinueUnwind => (),
+      instruction => {
+        let slots = slots + instruction.stack_effect();
+        debug_assert!(slots >= 0);
+        fun_builder.update_max_slots(slots);
+        work.push((next, slots));
+      },
+    }
   }
 }
 
